@@ -493,3 +493,38 @@ def alias_explore(fn, start_bb, S0, on_stmt, blocked_edge=lambda bb, tb, lab: Fa
                 continue
             dq.append((tb, S, V2))
     return seen
+
+
+def value_defs(fn, op, depth=8, _seen=None):
+    """definitions a (boolean) operand can get its value from, through copies and re-assigned locals:
+    [(kind, payload, bb)] with kind in const (payload: the constant), call (payload: Call), not (payload: inner operand), other"""
+    from .mir import Call
+    out = []
+    _seen = _seen if _seen is not None else set()
+    if op[0] == "k":
+        return [("const", op[1], None)]
+    if op[0] not in ("c", "m") or op[1][1] or depth <= 0:
+        return [("other", op, None)]
+    local = op[1][0]
+    if local in _seen:
+        return []
+    _seen = _seen | {local}
+    defs = [d for d in fn.defs().get(local, []) if not fn.is_cleanup(d[0]) and not (d[2] == "assign" and d[3]["p"][1])]
+    if not defs:
+        return [("other", op, None)]
+    for dbb, si, dk, payload in defs:
+        if dk == "call":
+            out.append(("call", Call(fn, dbb, payload, False), dbb))
+        elif dk == "assign":
+            r = payload["r"]
+            if r[0] == "use" and r[1][0] == "k":
+                out.append(("const", r[1][1], dbb))
+            elif r[0] == "use":
+                out += [(k, pl, bb if bb is not None else dbb) for k, pl, bb in value_defs(fn, r[1], depth - 1, _seen)]
+            elif r[0] == "un" and r[1] == "Not":
+                out.append(("not", r[2], dbb))
+            else:
+                out.append(("other", r, dbb))
+        else:
+            out.append(("other", payload, dbb))
+    return out
